@@ -4,6 +4,7 @@ import (
 	"bytes"
 	"encoding/binary"
 	"fmt"
+	"io"
 	"reflect"
 	"runtime"
 	"strings"
@@ -30,8 +31,47 @@ func measureDecode(t reflect.Type, data []byte) (alloc uint64, class string) {
 	if len(data) <= 2048 {
 		crumb("C05: Decode into " + t.Name() + " of " + hx(data))
 	}
+	return measureDecodeFrom(t, bytes.NewReader(data))
+}
+
+// fragReader delivers data `step` bytes per Read, each preceded by `empties` reads of (0, nil); with eofWithData the last
+// piece comes together with io.EOF. It is a plain io.Reader (the Decoder puts its own bufio.Reader on top).
+type fragReader struct {
+	data        []byte
+	step        int
+	empties     int
+	eofWithData bool
+	idle        int
+	reads       int
+}
+
+func (f *fragReader) Read(p []byte) (int, error) {
+	f.reads++
+	if len(f.data) == 0 {
+		return 0, io.EOF
+	}
+	if f.idle < f.empties {
+		f.idle++
+		return 0, nil
+	}
+	f.idle = 0
+	n := f.step
+	if n > len(p) {
+		n = len(p)
+	}
+	if n > len(f.data) {
+		n = len(f.data)
+	}
+	copy(p, f.data[:n])
+	f.data = f.data[n:]
+	if len(f.data) == 0 && f.eofWithData {
+		return n, io.EOF
+	}
+	return n, nil
+}
+
+func measureDecodeFrom(t reflect.Type, r io.Reader) (alloc uint64, class string) {
 	tgt := reflect.New(t)
-	r := bytes.NewReader(data)
 	var m0, m1 runtime.MemStats
 	runtime.ReadMemStats(&m0)
 	var err error
@@ -47,7 +87,7 @@ func measureDecode(t reflect.Type, data []byte) (alloc uint64, class string) {
 	}()
 	select {
 	case <-done:
-	case <-time.After(5 * time.Second):
+	case <-time.After(20 * time.Second):
 		return 0, "timeout"
 	}
 	runtime.ReadMemStats(&m1)
@@ -215,6 +255,89 @@ func runC05(r *Result, d *drv.Driver, tier string, seed int64, replay string) {
 	}
 	r.Stats["worst-bytes-allocated-per-input-byte"] = int(worst)
 	c05Scaling(r)
+	c05Fragmented(r)
+}
+
+// c05Fragmented: "a fixed linear function of the number of input bytes actually available" - however those bytes arrive. The
+// same honest and hostile messages are delivered whole, one byte per Read, 7 and 1000 bytes per Read, with 0, 3 and 40
+// zero-length reads before every piece, and with the last piece arriving together with io.EOF; the allocation of each Decode
+// call must stay under the same bound in the BYTES (reads that deliver nothing make nothing available), and its outcome must
+// be the one of the whole delivery.
+func c05Fragmented(r *Result) {
+	ver := kmip.ProtocolVersion{Major: 1, Minor: 4}
+	type fm struct {
+		name string
+		typ  string
+		data []byte
+	}
+	var msgs []fm
+	add := func(name, typ string, v interface{}, lie func(b []byte) []byte) {
+		var eb bytes.Buffer
+		if err := kmip.NewEncoder(&eb).Encode(v); err != nil {
+			r.find(Finding{Kind: "disagreement", What: "cannot encode the fragmentation message", Input: name, Actual: err.Error()})
+			return
+		}
+		b := eb.Bytes()
+		if lie != nil {
+			b = lie(b)
+		}
+		msgs = append(msgs, fm{name, typ, b})
+	}
+	for _, n := range []int{0, 5, 2000, 9000, 70000} {
+		n := n
+		add(fmt.Sprintf("Request / Get, Unique Identifier of %d bytes", n), "Request", &kmip.Request{Header: kmip.RequestHeader{Version: ver, BatchCount: 1},
+			BatchItems: []kmip.RequestBatchItem{{Operation: kmip.OPERATION_GET, RequestPayload: kmip.GetRequest{UniqueIdentifier: strings.Repeat("u", n)}}}}, nil)
+		add(fmt.Sprintf("Response / Decrypt, Data of %d bytes", n), "Response", &kmip.Response{Header: kmip.ResponseHeader{Version: ver, TimeStamp: time.Unix(1000000000, 0), BatchCount: 1},
+			BatchItems: []kmip.ResponseBatchItem{{Operation: kmip.OPERATION_DECRYPT, UniqueID: bytes.Repeat([]byte{3}, n/2), ResponsePayload: kmip.DecryptResponse{UniqueIdentifier: "k", Data: bytes.Repeat([]byte{7}, n)}}}}, nil)
+	}
+	// a hostile one: the long string announces 2^30 bytes (all enclosing lengths inflated), 1500 bytes of it really arrive
+	add("Request / Get, Unique Identifier announcing 2^30 bytes, 1500 delivered", "Request", &kmip.Request{Header: kmip.RequestHeader{Version: ver, BatchCount: 1},
+		BatchItems: []kmip.RequestBatchItem{{Operation: kmip.OPERATION_GET, RequestPayload: kmip.GetRequest{UniqueIdentifier: strings.Repeat("u", 1500)}}}}, func(b []byte) []byte {
+		for _, nd := range mut.All(mut.Parse(b)) {
+			if nd.Typ == 7 && nd.Len == 1500 {
+				binary.BigEndian.PutUint32(b[nd.Off+4:], 1<<30)
+				for p := nd.Parent; p != nil; p = p.Parent {
+					binary.BigEndian.PutUint32(b[p.Off+4:], 1<<30+4096)
+				}
+			}
+		}
+		return b
+	})
+	types := allDecodeTypes()
+	type delivery struct {
+		step, empties int
+		eofWithData   bool
+	}
+	deliveries := []delivery{{1, 0, false}, {1, 3, false}, {1, 40, false}, {7, 0, true}, {7, 40, false}, {1000, 0, false}, {1000, 3, true}, {1 << 30, 0, true}}
+	for _, m := range msgs {
+		whole, wclass := measureDecode(types[m.typ], m.data)
+		bound := uint64(allocA*len(m.data) + allocB)
+		for _, dl := range deliveries {
+			if dl.step == 1 && dl.empties == 40 && len(m.data) > 20000 {
+				continue // 3 million reads: left to the smaller messages
+			}
+			key := fmt.Sprintf("fragmented: %s (message of %d bytes), %d bytes per Read, %d zero-length reads before each, eof-with-data=%v", m.name, len(m.data), dl.step, dl.empties, dl.eofWithData)
+			crumb("C05 " + key)
+			r.eval(key, true)
+			fr := &fragReader{data: m.data, step: dl.step, empties: dl.empties, eofWithData: dl.eofWithData}
+			alloc, class := measureDecodeFrom(types[m.typ], fr)
+			r.Stats["fragmented-measurements"]++
+			in := map[string]string{"type": m.typ, "bytes": hx(m.data), "delivery": fmt.Sprintf("plain io.Reader: %d bytes per Read, %d reads of (0, nil) before each, last piece with io.EOF: %v (%d reads in all)", dl.step, dl.empties, dl.eofWithData, fr.reads)}
+			if len(m.data) > 4096 {
+				in["bytes"] = hx(m.data[:256]) + fmt.Sprintf("... (%s)", m.name)
+			}
+			if class != wclass {
+				r.find(Finding{Kind: "violation", What: "the outcome of Decode depends on how the input is delivered (C05 fragmentation sweep)", Input: in, Expect: wclass, Actual: class})
+				continue
+			}
+			if alloc > bound {
+				r.find(Finding{Kind: "violation", What: "Decode allocated more than the linear bound in the bytes received when they arrive in pieces: the allocation follows the number of reads, not the bytes", Input: in,
+					Expect: fmt.Sprintf("<= %d (whole delivery: %d)", bound, whole), Actual: fmt.Sprint(alloc)})
+				continue
+			}
+			_ = whole
+		}
+	}
 }
 
 // c05Scaling: honest messages - every declared length true - whose real size grows from 64 KiB to 4 MiB (one long byte string,
